@@ -236,7 +236,9 @@ func c17() {
 		}
 		copyFile(target, fx.binA)
 		var steps []string
+		henv := vlib.HostileEnvs[i%len(vlib.HostileEnvs)]
 		step := func(tr vlib.ToolRun, what string) *vlib.ToolResult {
+			tr.Env = henv
 			res, err := th.Run(tr)
 			if err != nil {
 				run.Inconclusive("cannot run profiler: " + err.Error())
